@@ -158,6 +158,16 @@ CHECKS = {
               'pending nonterminal edges (exhaustive when <= 720 orders); all results must be isomorphic to each other and to an independent '
               'plain-data expansion; derive() must yield that graph with a total assignment whose weight equals the product of the rule-instance weights.'),
         design_ref='DESIGN.md §4 C15'),
+    'C14': dict(
+        technique='boundary monitor on the JSON readers/writers: round trip judged through public accessors by an independent isomorphism checker, weight specifications judged by an independent axis evaluator, mutated JSON for the rejection clause (runtime monitoring)',
+        text=('Runtime monitoring: generated grammars (explicit / implicit / mixed ids, range or finite domains with JSON-native values, dense or '
+              'patterned weights with zero and infinite entries, float32/float64, start arity 0 or > 0, shuffled rule order) go through fgg_to_json '
+              '-> json.dumps -> json.loads -> json_to_fgg and the HRG variants; the reloaded grammar is compared with the original through the '
+              'public accessors only (start, labels and types, rules of each left-hand side isomorphic in order, externals, explicit ids, domains, '
+              'dense weights by value, sum-product), a second round trip must be verbatim when all ids are explicit, every attachment/external '
+              'index is mutated to out-of-range and negative values that must raise ValueError, and json_to_weights is compared with an '
+              'independent evaluation of random physical/expand/vaxes/default specifications.'),
+        design_ref='DESIGN.md §4 C14'),
 }
 
 NOT_BUILT = {}
